@@ -249,6 +249,16 @@ class CInference(Inference):
         if "fMin" not in self.epistemic_state:
             self.epistemic_state["fMin"] = dict()
 
+    @property
+    def base_csp(self) -> list:
+        """Constraint system of the belief base (kept in the epistemic state so that it
+        survives across the operator instances a manager creates per call)."""
+        return self.epistemic_state["base_csp"]
+
+    @base_csp.setter
+    def base_csp(self, csp: list) -> None:
+        self.epistemic_state["base_csp"] = csp
+
     def encoding(self, etas: dict, vSums: dict, fSums: dict) -> list:
         """
         Encode minimal correction subset constraints into PySMT constraints.
